@@ -117,7 +117,7 @@ func (g *G) arg(spec string, op string) string {
 		return sU64(uint64(g.pick(256)))
 	case "I8":
 		if g.chance(0.9) {
-			return sI64(int64(g.pick(3) - 1))
+			return sI64(int64(g.pick(4) - 2)) // the four CmpResult codes, NaN (-2) included
 		}
 		return sI64(int64(g.pick(256) - 128))
 	case "I16":
